@@ -59,6 +59,14 @@ Check C20_concurrent_equals_alone :
             e_stop e = Some (outcome (run step s feed)) /\
             summarise (e_state e) = backtest step summarise s feed.
 
+Check C20_batch_is_positional :
+  forall (M A St R : Type) (step : St -> ev M A -> St * bool) (summarise : St -> R)
+         (s0 : St) (feeds : list (list (ev M A))) (i : nat),
+  length (run_backtests step summarise s0 feeds) = length feeds /\
+  nth_error (run_backtests step summarise s0 feeds) i =
+    option_map (fun feed => summarise (state_after step s0 (processed (run step s0 feed))))
+               (nth_error feeds i).
+
 Check C20_weave_admissible :
   forall (M A : Type) (ds : list M) (acs : list A) (choices : list bool) (feed : list (ev M A)),
   weave (map EMarket ds ++ [EShutdown]) (map EAccount acs) choices = Some feed ->
@@ -84,6 +92,8 @@ Check eq_refl : ticks_of 1 [0; 1; 1; 2; 1] = 3.
 Check eq_refl : map (@e_state nat nat nat)
                   (run_schedule pin_step [1; 0; 1] [start 0 [EMarket 1; EMarket 2]; start 0 [EMarket 5; EMarket 6; EMarket 7]])
                 = [1; 11].
+Check eq_refl : run_backtests pin_step (fun s => s) 0 [[EMarket 1; EShutdown]; [EMarket 5; EMarket 2]; []]
+                = [1; 7; 0].
 Check (@il_l : forall (X : Type) (x : X) l r o, interleave l r o -> interleave (x :: l) r (x :: o)).
 Check (@il_r : forall (X : Type) (y : X) l r o, interleave l r o -> interleave l (y :: r) (y :: o)).
 Check (eq_refl : admissible [1; 2] [7] [EMarket 1; EAccount 7; EMarket 2; EShutdown]
